@@ -48,5 +48,13 @@ def bind(threads=1):
                      "expected under %s\n" % (where, root))
     sys.exit(2)
   tf.get_logger().setLevel("ERROR")
+  # Own the global random sources (TF_DETERMINISTIC_OPS requires a seed anyway).
+  import numpy as np
+  try:
+    seed = int(os.environ.get("VERIF_SEED", "0"))
+  except ValueError:
+    seed = 0
+  tf.random.set_seed(seed)
+  np.random.seed(seed)
   _STATE["tf"], _STATE["tfl"] = tf, tfl
   return tf, tfl
